@@ -151,6 +151,12 @@ Theorem c16_gc_own_files : forall p b d, NoDup (map f_stamp (list_files p d)) ->
   forall f, In f (list_files p (gc_dir p b d)) <-> In f (gc b (list_files p d)).
 Proof. exact gc_dir_own_files. Qed.
 
+(** Host, user and process id in the file names play no part: leftovers of
+    another process of the same program are counted and removed like the
+    logger's own files. *)
+Theorem c16_gc_ignores_host_user_pid : forall p b l, map n_d (gc_names p b l) = gc_dir p b (map n_d l).
+Proof. exact gc_ignores_host_user_pid. Qed.
+
 (** In a process with several loggers (distinct prefixes) a GC run of one
     changes no other logger's files. *)
 Theorem c16_gc_other_loggers_unchanged : forall h p b q s ms,
